@@ -22,6 +22,12 @@ constexpr nterm<int> root4("root"), tail4("tail");
 constexpr parser p4(root4, terms('x', 'y', 'z'), nterms(root4, tail4), rules(
     root4('x', tail4) >= [](skip, int n) { return n; }, root4(error, 'y', tail4) >= [](skip, skip, int n) { return 1000 + n; },
     tail4('z') >= val(1), tail4('z', tail4) >= [](skip, int n) { return n + 1; }));
+// one empty rule and one recovery, both slots of the capacity N + EmptyRulesCount + 1 in use at once: error at the first term,
+// right-recursive tail, then the empty reduction
+constexpr nterm<int> root5("root"), tail5("tail");
+constexpr parser p5(root5, terms('x', 'y'), nterms(root5, tail5), rules(
+    root5('y', tail5) >= [](skip, int n) { return n; }, root5(error, tail5) >= [](skip, int n) { return 1000 + n; },
+    tail5('x', tail5) >= [](skip, int n) { return n + 1; }, tail5() >= val(0)));
 template<class P, size_t N> static void one(const P& p, const char* name, const char (&lit)[N]) {
   std::string got, want;
   { auto r = p.parse(string_buffer(lit)); want = r ? std::to_string(*r) : "none"; }
@@ -34,6 +40,7 @@ int main() {
   one(p2, "list", ";"); one(p2, "list", "xx;"); one(p2, "list", "x;;"); one(p2, "list", "xxx"); one(p2, "list", "x;x;x"); one(p2, "list", ";;"); one(p2, "list", "xx;x");
   one(p3, "decl", "k"); one(p3, "decl", "ak"); one(p3, "decl", "bk"); one(p3, "decl", "ck"); one(p3, "decl", "abck"); one(p3, "decl", "a c k"); one(p3, "decl", ""); one(p3, "decl", "kk");
   one(p4, "tail", "xzzz"); one(p4, "tail", "yz"); one(p4, "tail", "yzzz"); one(p4, "tail", "yzzzzzzzzz"); one(p4, "tail", "zyzz"); one(p4, "tail", "zzz"); one(p4, "tail", "y");
+  one(p5, "tail-with-empty", "xxxx"); one(p5, "tail-with-empty", "x"); one(p5, "tail-with-empty", "yxxx"); one(p5, "tail-with-empty", "y"); one(p5, "tail-with-empty", "");
   // constant evaluation of the boundary cases
   constexpr auto c1 = p1.parse(cstring_buffer("aaab")); static_assert(c1.has_value() && *c1 == 103);
   constexpr auto c2 = p2.parse(cstring_buffer("xx;")); static_assert(c2.has_value());
